@@ -170,6 +170,10 @@ func estimateCase(r *vrt.Run, idx int) {
 			call.GasPrice.Set(call.GasFeeCap)
 		}
 	}
+	if priced && rng.Intn(3) == 0 {
+		// a value worth many gas units at the fee cap (the funds cap must subtract it)
+		value.Mul(call.GasFeeCap, uint256.NewInt(uint64(1+rng.Intn(2_000_000))))
+	}
 	if fork >= execenv.Berlin && rng.Intn(5) == 0 {
 		call.AccessList = types.AccessList{{Address: w.Contracts[rng.Intn(len(w.Contracts))], StorageKeys: []common.Hash{{}, common.BigToHash(big.NewInt(2))}}}
 	}
